@@ -1,6 +1,6 @@
 """C16: Discovery.tla <-> discovery.Module as server and as client (two sqlite databases, statement gates inside
 the server's get, real JWT presentations of did:jwk subjects)."""
-import json, os, random, re, time
+import json, os, random, re, shutil, time
 from concurrent.futures import ThreadPoolExecutor
 from .. import vlib
 from ..vlib import Report, Inconclusive
@@ -35,6 +35,30 @@ def subst(cfg, **repl):
             raise Inconclusive("cannot substitute %s in %s" % (k, cfg))
         txt = new
     return txt
+
+
+_scratch = []
+
+
+def fixed_from_env():
+    fixed = os.environ.get("VERIF_C16_FIXED", "")
+    return dict(RefetchOnSeedChange="TRUE" if "seedwipe" in fixed else "FALSE",
+                SupersedeMustOutlive="TRUE" if "shortlived" in fixed else "FALSE")
+
+
+def variant(cfg, repl=None):
+    """The descriptive configs mirror the CURRENT tree (both deviations present). After a fix: commit the deviation constant
+    has to be switched in Discovery.gen*.cfg / sim / trace; VERIF_C16_FIXED=seedwipe,shortlived does the same for an experiment,
+    and trace validation tries the other variants by itself before it reports drift."""
+    repl = repl or fixed_from_env()
+    if all(v == "FALSE" for v in repl.values()):
+        return cfg
+    if not _scratch:
+        _scratch.append(vlib.scratch("c16cfg"))
+    path = os.path.join(_scratch[0], "-".join(k for k, v in sorted(repl.items()) if v == "TRUE") + "." + cfg)
+    with open(path, "w") as fh:
+        fh.write(subst(cfg, **repl))
+    return path      # absolute: os.path.join(SPEC, "cfg", path) == path
 
 
 def features(b):
@@ -113,8 +137,8 @@ def S(s, kind="reg", e="long", d="none", c="", res="accepted"):
 def selftest_scripts():
     """Schedules on which a server that read its timestamp AFTER its rows would lose an entry for ever."""
     return [dict(id="selftest-%d" % i, steps=st) for i, st in enumerate([
-        [S("s1")] + POLL + [dict(a="PollFirst"), S("s2"), dict(a="PollSecond"), S("s3"), dict(a="ClientApply")],
-        [dict(a="PollFirst"), S("s1"), dict(a="PollSecond"), S("s2"), S("s3"), dict(a="ClientApply")],
+        [S("s1")] + POLL + [S("s2"), dict(a="PollFirst"), dict(a="PollSecond"), S("s3"), dict(a="ClientApply")],
+        [S("s1"), dict(a="PollFirst"), dict(a="PollSecond"), S("s2"), dict(a="ClientApply")],
     ])]
 
 
@@ -169,13 +193,13 @@ def vacuity(models):
 
 def generate(quick, seed, rnd, n_exh, n_sim):
     gen_cfg = "Discovery.gen.quick.cfg" if quick else "Discovery.gen.cfg"
-    g = vlib.tlc("MCDiscovery", gen_cfg, workers=8, timeout=2400)
+    g = vlib.tlc("MCDiscovery", variant(gen_cfg), workers=8, timeout=2400)
     if not g.ok:
         raise Inconclusive("generation run failed: %s %s" % (g.violation, g.error))
     wit = g.printed
     wit.sort(key=lambda b: json.dumps(b, sort_keys=True))
     chosen, nb = pick(wit, n_exh, rnd)
-    s = vlib.tlc("MCDiscovery", "Discovery.sim.cfg", workers=1, simulate="num=%d" % n_sim, depth=45, seed=seed, timeout=1200)
+    s = vlib.tlc("MCDiscovery", variant("Discovery.sim.cfg"), workers=1, simulate="num=%d" % n_sim, depth=45, seed=seed, timeout=1200)
     if s.error:
         raise Inconclusive("simulation failed: " + str(s.error))
     sim = vlib.dedupe_maximal(s.printed)
@@ -185,9 +209,9 @@ def generate(quick, seed, rnd, n_exh, n_sim):
 
 def judge(rep, prop, results, scripts, common):
     ninc = 0
-    stats = dict(checks=0, accepted=0, rejected=0, wipes=0, races=0, deferred=0, drift=0)
+    stats = dict(checks=0, accepted=0, rejected=0, wipes=0, races=0, deferred=0, refetches=0, drift=0)
     for r in results:
-        for k in ("checks", "accepted", "rejected", "wipes", "races", "deferred"):
+        for k in ("checks", "accepted", "rejected", "wipes", "races", "deferred", "refetches"):
             stats[k] += r.get(k, 0)
         stats["drift"] += len(r.get("drift") or [])
         sc = scripts[r["id"]]
@@ -222,7 +246,7 @@ def run(prop, tier, seed, replay=None):
 
     quick = tier == "quick"
     rnd = random.Random(seed)
-    n_exh, n_sim = (240, 160) if quick else (2400, 1600)
+    n_exh, n_sim = (240, 160) if quick else (2000, 1200)
     common = dict(workers=6, final_polls=3)
 
     phases = {}
@@ -289,7 +313,44 @@ def run(prop, tier, seed, replay=None):
     good = [r for r in results if r.get("trace") and not r.get("error")]
     traces = [abstract_trace(r["trace"]) for r in good]
     t2 = time.time()
-    acc, rej = vlib.validate_traces("TraceDiscovery", "Discovery.trace.cfg", traces, timeout=1500)
+    # structural drift is recognised without TLC: the first statement of get is not the service row any more
+    odd = set(i for i, t in enumerate(traces) if any(e["ev"] == "poll.first" and e.get("first") != "discovery_service" for e in t))
+    if odd:
+        rep.notes.append("DRIFT: in %d of %d executions the first SQL statement of the server's get was not the read of the "
+                         "discovery_service row (e.g. script %s)" % (len(odd), len(traces), good[min(odd)]["id"]))
+        if not rep.violations and len(odd) > len(traces) // 10:
+            rep.inconclusive.append("the statement structure of sqlStore.get differs from the specification (spec/code drift)")
+        keep = [i for i in range(len(traces)) if i not in odd]
+        good, traces = [good[i] for i in keep], [traces[i] for i in keep]
+    # a probe first: every rejected trace costs extra TLC runs, so do not feed thousands of them
+    probe = min(len(traces), 40)
+    tcfg = variant("Discovery.trace.cfg")
+    acc, rej = vlib.validate_traces("TraceDiscovery", tcfg, traces[:probe], timeout=1500)
+    if len(rej) > probe // 4:
+        # does the code conform to the specification with a deviation repaired?
+        cur = fixed_from_env()
+        for a in ("FALSE", "TRUE"):
+            for b in ("FALSE", "TRUE"):
+                alt = dict(RefetchOnSeedChange=a, SupersedeMustOutlive=b)
+                if alt == cur:
+                    continue
+                a2, r2 = vlib.validate_traces("TraceDiscovery", variant("Discovery.trace.cfg", alt), traces[:probe], timeout=1500)
+                if len(r2) < len(rej):
+                    acc, rej, tcfg, best = a2, r2, variant("Discovery.trace.cfg", alt), alt
+        if len(rej) <= probe // 4:
+            rep.notes.append("NOTE: the recorded traces are behaviours of the specification with %s (not of the configured "
+                             "descriptive variant): a deviation has been repaired in the code, switch the constant in "
+                             "spec/cfg/Discovery.{gen,gen.quick,sim,trace}.cfg" % json.dumps(best))
+    if len(rej) <= probe // 4:
+        a2, r2 = vlib.validate_traces("TraceDiscovery", tcfg, traces[probe:], timeout=1500)
+        for x in r2:
+            x["index"] += probe
+        acc, rej = acc + a2, rej + r2
+    else:
+        rep.notes.append("DRIFT: %d of the first %d recorded traces are not behaviours of the specification; the remaining %d were "
+                         "not validated" % (len(rej), probe, len(traces) - probe))
+        if not rep.violations:
+            rep.inconclusive.append("recorded traces are not behaviours of the specification (spec/code drift)")
     phases["trace_validation"] = round(time.time() - t2, 1)
     dbg = os.environ.get("VERIF_C16_DEBUG")
     if dbg:
@@ -298,7 +359,8 @@ def run(prop, tier, seed, replay=None):
             r = good[x["index"]]
             json.dump(dict(script=scripts[r["id"]], result=r, rejected=x), open(os.path.join(dbg, r["id"] + ".json"), "w"), indent=1)
     for x in rej[:5]:
-        rep.notes.append("DRIFT: trace of %s rejected at event %s (%s)" % (good[x["index"]]["id"], json.dumps(x["event"])[:300], x["kind"]))
+        rep.notes.append("%s: trace of %s rejected at event %s (%s)" % ("TRACE-VIOLATION" if x["kind"].startswith("invariant:") else "DRIFT",
+                                                                        good[x["index"]]["id"], json.dumps(x["event"])[:300], x["kind"]))
     for x in rej:
         if x["kind"].startswith("invariant:"):
             sc = scripts[good[x["index"]]["id"]]
@@ -330,5 +392,8 @@ def run(prop, tier, seed, replay=None):
                     "state, chosen by feature cover, plus -simulate walks) are replayed step by step on the real discovery.Module pair with "
                     "a gate between the two SQL statements of the server's get; the statement is evaluated on Get/Search/sqlite rows after "
                     "every step and after 3 final polls; every recorded real trace is validated by TLC against TraceDiscovery.tla")
+    for d in _scratch:
+        shutil.rmtree(d, ignore_errors=True)
+    del _scratch[:]
     vlib.write_evidence(prop, tier, seed, "model_checking", cov, time.time() - t0, len(rep.violations), ASSUMPTIONS)
     return rep.finish()
